@@ -29,6 +29,7 @@ CLAUSE_PROP = {
     "raise_cause_is_last_exception": "C06",
     "raise_only_when_done_or_stopped": "C10",
     "kb_quiescent": "C17",
+    "abort_quiescent": "C07",
     "kb_was_interrupted": "C17",
     "post_threads_exited": "C07",
     "post_no_late_events": "C07",
@@ -58,6 +59,7 @@ MACHINERY_CLAUSES = {
     "ret_running_phase",
     "raise_running_phase",
     "kb_running_phase",
+    "abort_running_phase",
 }
 
 
@@ -66,10 +68,13 @@ def classify(task, rec, clauses):
     first broken clause per property only for the *earliest* event (later ones may be
     consequences of the forced effect)."""
     out = {}
-    interrupted = bool(rec.get("interrupts")) or bool(task.get("strat", {}).get("spawn_fail"))
+    interrupted = bool(rec.get("interrupts"))
     had_failure = any(e["ev"] == "end" and not e["ok"] for e in rec["events"])
     first_l = min(l for l, _ in clauses)
     for l, c in clauses:
+        if c.startswith("offpremise_"):
+            out.setdefault("offpremise", []).append(c)
+            continue
         if c in MACHINERY_CLAUSES:
             out.setdefault("machinery", []).append(c)
             continue
@@ -143,8 +148,11 @@ def gen_tasks(profile, count, seed, opcode_frac=0.15, nmax=8):
         if prof == "interrupt":
             scn = S.with_fail_plan(scn, rng, 1, p=rng.choice([0.0, 0.0, 0.2]))
             ncalls = max(1, len(S.call_ids(scn)))
-            if rng.random() < 0.8:
+            r2 = rng.random()
+            if r2 < 0.6:
                 strat["interrupt"] = ["event", rng.randint(1, ncalls), rng.randint(0, 40)]
+            elif r2 < 0.85:
+                strat["interrupt"] = ["site_running", rng.randint(1, 4)]
             else:
                 strat["interrupt"] = ["site", rng.randint(1, 12)]
             kw["maxerr"] = rng.choice([0, 1, None])
@@ -200,7 +208,7 @@ def _exec_one(task):
     tr = E.runabs_record(task, rec)
     # keep the payload small
     slim = {k: rec[k] for k in ("outcome", "dead", "steps", "switches", "preemptions", "threads", "alive_at_return", "events_after_return", "leaked", "interrupts") if k in rec}
-    for k in ("exc_type", "exc_repr", "value_ok", "value_repr", "err_call", "err_cause", "_poisoned"):
+    for k in ("thread_exc", "exc_type", "exc_repr", "value_ok", "value_repr", "err_call", "err_cause", "_poisoned"):
         if k in rec:
             slim[k] = rec[k]
     slim["events"] = rec["events"] if task.get("keep_events") else [e for e in rec["events"] if e["ev"] in ("start", "end", "interrupt", "main_settled", "spawn_fail") or e["ev"].startswith(("p_", "q_", "alive"))]
